@@ -37,6 +37,10 @@ func (d *Data) DescribeTKeyClass(tkc storage.TKeyClass) string {
 
 // NewTKey returns the "key" key component.
 func NewTKey(key string) (storage.TKey, error) {
+	// DecodeTKey refuses a stored key of no bytes, so it must never be written.
+	if key == "" {
+		return nil, fmt.Errorf("empty key")
+	}
 	// The stored form ends with a zero byte and versions of a key are found by byte prefix, so a key
 	// holding a zero byte would make a shorter key a prefix of it.
 	if strings.IndexByte(key, 0) >= 0 {
